@@ -56,8 +56,17 @@ ADVERSARIAL_CONDITIONS = [
     "1 / 0", "1 % 0", "'a' + 1", "len(5)", "[] < 1", "None > None", "exit()", "quit()", "print('x')", "input()", "10 ** 10 ** 2", "'a' * 1000",
     "int('x')", "[][0]", "{}['k']", "-'a'", "1 << -1", "0 ** -1", "float('inf') - float('inf')", "chr(-1)", "max([])", "next(iter([]))",
     "1 in 1", "[] @ []", "(1).nosuch", "'%d' % 'x'", "sum('ab')", "dict(a=1, **{'a': 2})", "sorted([1, 'a'])", "range(1, 2, 0)", "{[]: 1}",
+    "'abc'.startwith('a')", "'{0.x}'.format(1)", "'a'.join(1)", "[].pop()", "{}.popitem()", "'x'.encode('nope')", "b'\\xff'.decode()", "'abc'.index('z')",
+    "(1).bit_length(2)", "''.join([1])", "'{}'.format()", "'{a}'.format()", "'x'.zfill('a')", "(1.5).hex(1)", "[1].index(2)", "(1, 2).count()", "'a'.nosuch()",
     "int.__new__(list)", "eval('1/0')", "open('nonexistent_vf_file')", "__import__('nonexistent_vf_module')", "bytes(-1)", "divmod(1, 0)", "round(1, 'a')",
 ]
+# long runs of blank lines (regular expressions over blank lines must not backtrack exponentially): before an indented line,
+# before a top-level line, at the end of the file, with and without blanks on the empty lines
+BLANK_RUNS = [
+    "def f():\n    x = 1\n" + "\n" * n + tail
+    for n in (22, 26, 30, 40, 80)
+    for tail in ("    return x\n", "print(f())\n", "", "    \n", "    return x")
+] + ["x = 1\n" + "   \n" * 35 + "y = 2\n", "class K:\n" + "\n" * 33 + "    a = 1\n" + "\n" * 33]
 ADVERSARIAL_TEMPLATES = [
     "if {e}:\n    print(1)\nelse:\n    print(2)\n", "while {e}:\n    break\n", "assert {e}\n", "x = 1 if {e} else 2\n", "print([i for i in range(3) if {e}])\n",
     "y = ({e}) and f()\n", "y = g() or ({e})\n", "def f():\n    if {e}:\n        return 1\n    return 2\n", "if not ({e}):\n    pass\n",
